@@ -146,7 +146,7 @@ var detailPool = []func(r *rand.Rand) proto.Message{
 	},
 }
 
-var errMsgPool = []string{"", "boom", "100% wrong", "line1\r\nline2", "say \"hi\"", "é", "日本語 エラー", "😀 oops", "a%2Fb", "tab\there", "back\\slash", "~!@#$^&*()_+", "mid  dle"}
+var errMsgPool = []string{"", "boom", "100% wrong", "line1\r\nline2", "say \"hi\"", "é", "日本語 エラー", "😀 oops", "a%2Fb", "tab\there", "back\\slash", "~!@#$^&*()_+", "mid  dle", "del\x7fchar"}
 
 func genRPCError(r *rand.Rand) *RPCError {
 	e := &RPCError{Code: 1 + r.IntN(16), Msg: pick(r, errMsgPool)}
